@@ -405,6 +405,32 @@ M = [
   "\t___mutex_lock(&iv_fd_epoll_active_fd_mutex);\n\tif (!iv_active_fd_refcount++)\n\t\tiv_active_fd = iv_fd_epoll_create_active_fd();\n\t___mutex_unlock(&iv_fd_epoll_active_fd_mutex);",
   "\tif (!iv_active_fd_refcount++)\n\t\tiv_active_fd = iv_fd_epoll_create_active_fd();",
   ["C14"], "shared kick-descriptor reference count updated without its mutex by loops in different threads"),
+ # ---- ties by translation (gen/c2gallina.py TYPED -> Gen/Leaf*.v, link lemmas): edits that no generated test case notices;
+ #      the link theorem of the property breaks (VIOLATION(no-input) naming the theorem) ------------------------------------------
+ ("link_work_unsigned_loop_test", "iv_work.c",
+  "\twhile ((int32_t)(last_seq - pool->seq_head) > 0) {",
+  "\twhile (last_seq > pool->seq_head) {",
+  ["C12"], "tie: the loop test is no longer the signed test modulo 2^32 (wrong after seq wrap-around): C12_seq_tests_are_the_code"),
+ ("link_popen_sigterm_again_after_100", "iv_popen.c",
+  "\tsignum = (ch->num_kills++ < MAX_SIGTERM_COUNT) ? SIGTERM : SIGKILL;",
+  "\tsignum = (ch->num_kills++ < MAX_SIGTERM_COUNT || ch->num_kills > 100) ? SIGTERM : SIGKILL;",
+  ["C19"], "tie: SIGTERM again from the 101st signal on: C19_escalation_is_the_code"),
+ ("link_avl_recalc_not_max_above_200", "iv_avl.c",
+  "\tan->height = 1 + ((hl > hr) ? hl : hr);",
+  "\tan->height = 1 + ((hl > hr || hl > 200) ? hl : hr);",
+  ["C16"], "tie: recalc_height is not 1 + max for heights above 200: C16_balance_arith_is_the_code"),
+ ("link_inotify_loop_until_equal", "iv_inotify.c",
+  "\twhile (curr < end) {",
+  "\twhile (curr != end) {",
+  ["C20"], "tie: the record walk stops only at curr == end (same on whole records): C20_record_walk_is_the_code"),
+ ("link_signal_compare_extra_flag_bit", "iv_signal.c",
+  "\tif ((a->flags & IV_SIGNAL_FLAG_EXCLUSIVE) &&\n\t    !(b->flags & IV_SIGNAL_FLAG_EXCLUSIVE))",
+  "\tif ((a->flags & (IV_SIGNAL_FLAG_EXCLUSIVE | 4)) &&\n\t    !(b->flags & IV_SIGNAL_FLAG_EXCLUSIVE))",
+  ["C10"], "tie: the comparator looks at an unused flag bit too: C10_compare_is_the_code"),
+ ("link_wait_compare_huge_pid", "iv_wait.c",
+  "\tif (a->pid < b->pid)\n\t\treturn -1;",
+  "\tif (a->pid < b->pid || a->pid > 1000000)\n\t\treturn -1;",
+  ["C11"], "tie: the comparator is not a three-way comparison for pids above 10^6: C11_compare_is_the_code"),
 ]
 
 _prop_locks = {}
@@ -487,6 +513,12 @@ def run_check(d, name, pr, timeout=2400):
             if isinstance(out, bytes):
                 out = out.decode(errors="replace")
             rc = 124
+        # a check whose proofs depend on re-translated definitions (lib/leafgen.py OWNED) has rewritten its generated Coq file
+        # from the edited tree: put the translation of the unchanged tree back before the property lock is released
+        env0 = dict(os.environ)
+        env0.pop("VERIF_REPO", None)
+        subprocess.run([sys.executable, os.path.join(VERIF, "lib", "leafgen.py"), pr], cwd=VERIF, env=env0,
+                       stdout=subprocess.DEVNULL, stderr=subprocess.DEVNULL)
         cls, replays = classify(rc, out)
         heads = []
         for path, noinp in replays:
